@@ -757,6 +757,69 @@ func (g *gen) reads() {
 	}
 }
 
+// InitCases: the very first start in an empty data directory, killed before the
+// n-th index transaction of the two constructors (1: bucket creation, 2: the
+// block store's genesis entry, 3: the filter store's bucket check, 4: the
+// filter store's genesis tip), then restarted.
+func InitCases(t *tr.W, r *rand.Rand) {
+	for n := 1; n <= 5; n++ {
+		d, err := os.MkdirTemp("", "storeinit")
+		if err != nil {
+			panic(err)
+		}
+		w := &world{dir: d, bid: map[chainhash.Hash]int{}, fid: map[chainhash.Hash]int{}, r: r,
+			crashStep: -1, faultStep: -1}
+		g := params.GenesisBlock.Header
+		w.bid[g.BlockHash()] = 0
+		w.bhdr = append(w.bhdr, &g)
+		t.Case("store init")
+		obs := func() (obs string) {
+			db, err := walletdb.Create("bdb", filepath.Join(d, "n.db"), false, 10*time.Second, false)
+			if err != nil {
+				return "err-create"
+			}
+			defer db.Close()
+			fdb := &faultDB{DB: db, w: w}
+			w.inOp, w.step, w.crashStep = true, 0, n-1
+			defer func() {
+				w.inOp, w.crashStep = false, -1
+				if x := recover(); x != nil {
+					if _, ok := x.(crashSig); ok {
+						obs = "crashed"
+						return
+					}
+					obs = fmt.Sprintf("PANIC %v", x)
+				}
+			}()
+			b, err := headerfs.NewBlockHeaderStore(d, fdb, params)
+			if err != nil {
+				return "err"
+			}
+			defer headerfs.VerifCloseFile(b)
+			f, err := headerfs.NewFilterHeaderStore(d, fdb, headerfs.RegularFilter, params, nil)
+			if err != nil {
+				return "err"
+			}
+			headerfs.VerifCloseFile(f)
+			return "ok"
+		}()
+		t.Op(fmt.Sprintf("initcrash %d", n), obs)
+		err = w.open()
+		t.Op("reopen", errClass(err))
+		if err == nil {
+			if fh, _, err := w.fs.ChainTip(); err == nil {
+				w.fid[*fh] = 0
+				w.fhs = append(w.fhs, *fh)
+			}
+			t.Op("dump", w.dump())
+		} else {
+			t.Line("# reopen error: %v", err)
+		}
+		t.Hit("store.initcrash." + errClass(err))
+		w.destroy()
+	}
+}
+
 // Cases emits n cases.  mode: "plain" (no faults), "faults", "crashes".
 func Cases(t *tr.W, r *rand.Rand, n int, mode string) {
 	for i := 0; i < n; i++ {
@@ -797,6 +860,7 @@ func init() {
 		if thorough {
 			k = 20
 		}
+		InitCases(t, r)
 		Cases(t, r, b*k*tr.EnvInt("STORE_CRASHES", 220), "crashes")
 		if template != "" {
 			defer os.RemoveAll(template)
